@@ -20,7 +20,7 @@ ASSUMPTIONS = ["bytes, NaN and check_for_cycles=False on cyclic input are not ju
                "json.build_tree has no cycle option: on cyclic input any prompt exception (RecursionError, ValueError) is accepted",
                "expand-call budget = 8*(size of the path-unfolding of the object graph)+32: shared sub-objects are legitimately expanded once per reference"]
 MINIMUMS = {"quick": {"acyclic_conversions": 4000, "cyclic_inputs": 1500, "dags_with_sharing": 300, "copies_judged": 3000},
-            "thorough": {"acyclic_conversions": 100000, "cyclic_inputs": 40000, "dags_with_sharing": 20000, "copies_judged": 80000}}
+            "thorough": {"acyclic_conversions": 100000, "cyclic_inputs": 40000, "dags_with_sharing": 6000, "copies_judged": 40000}}
 ENTRIES = ["json", "basic", "pydiff"]
 
 
